@@ -1,7 +1,7 @@
 /-
 Which heap cells the evaluator can overwrite.  `KS s s'` (kinds stable): every cell that exists in `s` exists in `s'`
-with the same kind, and cells of the kinds that are never written — method, text, truth value, 空, exception value —
-are literally the same.  `KS` is `Stable0` (allocation only appends) but not `Stable`; the four places of the model
+with the same kind, and cells of the kinds that are never written — method, truth value, 空, exception value —
+are literally the same (a text cell is rewritten in place by 转换数值: `strExecAtoi` assigns to `s.value`).  `KS` is `Stable0` (allocation only appends) but not `Stable`; the four places of the model
 that call `setCell` (`setProperty`, `builtinMethod`, `reduceLHS`, `evalCtorDecl`) are proved one by one: each writes
 a cell of the kind it has just read at that address (`PKa`: a judgment that carries "the cell at `a` has kind `k`"
 through the steps in between).  `allPres` then gives `KS` for the whole evaluator.
@@ -35,7 +35,7 @@ def kindOf : Cell ν → Kind
 
 /-- kinds whose cells no operation overwrites -/
 def Kind.frozen : Kind → Bool
-  | .str | .bool | .null | .fn | .exc => true
+  | .bool | .null | .fn | .exc => true
   | _ => false
 
 def CellKeep (c c' : Cell ν) : Prop := kindOf c' = kindOf c ∧ ((kindOf c).frozen = true → c' = c)
